@@ -169,6 +169,13 @@ func c04Coverage(c *core.Ctx, w WLCase) {
 		wordSeen[i] = map[string]bool{}
 		sepSeen[i] = map[string]bool{}
 	}
+	// title form -> list word (for recognising capitalised atoms)
+	baseOf := map[string]string{}
+	for _, k := range kept {
+		if t := ref.Title(k); t != k {
+			baseOf[t] = k
+		}
+	}
 	bad := ""
 	maxBits := 0.0
 	st := exploreCell(r.Generate, CellOpt{DepthCut: 4*L + 8, Fallback: 2, MaxMenu: 1 << 17, MaxLeaves: 3_000_000, Dev: 1, Log: true, BigRaw: true}, func(l *Leaf) {
@@ -201,10 +208,8 @@ func c04Coverage(c *core.Ctx, w WLCase) {
 		for i, a := range l.Out.Atoms {
 			isCap := false
 			base := a
-			for _, k := range kept {
-				if ref.Title(k) == a && k != a {
-					isCap, base = true, k
-				}
+			if k, ok := baseOf[a]; ok {
+				isCap, base = true, k
 			}
 			wordSeen[i][base] = true
 			if isCap {
@@ -321,6 +326,24 @@ func c04Run(c *core.Ctx) {
 			return
 		}
 		c04Case(c, w, maxLeaves*4)
+	}
+	// very large lists (index arithmetic beyond 16 bits): every word at every position
+	huge := []int{65535, 65536, 70000}
+	if c.Thorough() {
+		huge = []int{4097, 65535, 65536, 65537, 70000, 100003, 131072}
+	}
+	for _, n := range huge {
+		if !c.Mine() {
+			continue
+		}
+		ws := make([]string, n)
+		for i := range ws {
+			ws[i] = fmt.Sprintf("w%dx", i)
+		}
+		for r := uint32(0); r < uint32(n); r++ {
+			cal.Rep(uint32(n), r) // calibrate outside any Read
+		}
+		c04Coverage(c, WLCase{Words: ws, Length: 2, Cap: "none", Sep: Sep{Kind: "none"}})
 	}
 	// long recipes: single-deviation coverage
 	longL := []int{4, 8, 16, 17, 18, 33, 64, 65, 130}
